@@ -394,4 +394,82 @@ theorem gen_count_zeros_large (W U : Nat) (ws : List Nat) (hne : ws ≠ []) (hw 
       rw [popWord_eq_popNat W _ hlt]; exact popNat_le_bitLen _
     omega
 
+-- ---------------------------------------------------------------- round 6: `TypedReprRef::trailing_ones_neg`, arm `RefLarge`
+
+/-- the scan result is at most the bit length of the slice -/
+theorem tzLarge_le (W : Nat) (ws : List Nat) (t : Nat) (h : tzLarge W ws = .ok t) : t ≤ ws.length * W := by
+  induction ws generalizing t with
+  | nil => simp [tzLarge] at h
+  | cons w ws ih =>
+    unfold tzLarge at h
+    by_cases hw : w ≠ 0
+    · rw [if_pos hw] at h
+      injection h with h
+      have := tzWord_le W w
+      have e : (w :: ws).length * W = ws.length * W + W := by simp [Nat.succ_mul]
+      omega
+    · rw [if_neg hw] at h
+      cases h' : tzLarge W ws with
+      | error e => rw [h'] at h; simp [Except.map] at h
+      | ok t' =>
+        rw [h'] at h
+        simp only [Except.map] at h
+        injection h with h
+        have := ih t' h'
+        have e : (w :: ws).length * W = ws.length * W + W := by simp [Nat.succ_mul]
+        omega
+
+/-- the shifted scan result + 1 is at most the bit length of the slice (so the `+ 1` of `trailing_ones_neg` cannot overflow) -/
+theorem tzLargeShiftedByOne_succ_le (W : Nat) (hW : 2 ≤ W) (w0 : Nat) (rest : List Nat) (t : Nat)
+    (h : tzLargeShiftedByOne W (w0 :: rest) = .ok t) : t + 1 ≤ (rest.length + 1) * W := by
+  unfold tzLargeShiftedByOne at h
+  simp only [List.getD_cons_zero, List.drop_succ_cons, List.drop_zero] at h
+  have hz := tzWord_le W (w0 / 2)
+  have e : (rest.length + 1) * W = rest.length * W + W := by simp [Nat.succ_mul]
+  by_cases hb : tzWord W (w0 / 2) < W - 1
+  · rw [if_pos hb] at h
+    injection h with h
+    omega
+  · rw [if_neg hb] at h
+    cases h' : tzLarge W rest with
+    | error e => rw [h'] at h; simp [Except.map] at h
+    | ok t' =>
+      rw [h'] at h
+      simp only [Except.map] at h
+      injection h with h
+      have := tzLarge_le W rest t' h'
+      omega
+
+/-- **`TypedReprRef::trailing_ones_neg`, arm `RefLarge`** (trailing ones of `-x` for a heap magnitude: `IBig::trailing_ones` of a
+    negative value) as regenerated = the heap arm of the hand model's `TRepr.trailingOnesNeg`, panic included: the CHECKED
+    `words[0]`, the parity test, the regenerated shifted scan, and the `+ 1`, which never overflows -/
+theorem gen_trailing_ones_neg_large (W U : Nat) (w0 : Nat) (rest : List Nat) (hW : 2 ≤ W)
+    (hU : (rest.length + 2) * W < 2 ^ U) :
+    (trailing_ones_neg_large W U (w0 :: rest)).map some = okOf ((TRepr.large (w0 :: rest)).trailingOnesNeg W) := by
+  unfold trailing_ones_neg_large TRepr.trailingOnesNeg
+  have hidx : index (w0 :: rest) 0 = some w0 := rfl
+  have hpar : ((w0 &&& 1) == 0) = decide (w0 % 2 = 0) := by
+    rw [Nat.and_one_is_mod]; by_cases h : w0 % 2 = 0 <;> simp [h]
+  simp only [hidx, bind, Option.bind, hpar, List.getD_cons_zero]
+  by_cases h0 : w0 % 2 = 0
+  · simp [h0, okOf, pure]
+  · simp only [h0, decide_false, Bool.false_eq_true, if_false]
+    rw [gen_trailing_zeros_large_shifted_by_one W U w0 rest hW hU]
+    cases h' : tzLargeShiftedByOne W (w0 :: rest) with
+    | error e => simp [okOf, Except.map]
+    | ok t =>
+      have hb := tzLargeShiftedByOne_succ_le W hW w0 rest t h'
+      have e : (rest.length + 2) * W = (rest.length + 1) * W + W := by
+        rw [show rest.length + 2 = (rest.length + 1) + 1 from rfl, Nat.succ_mul]
+      have hlt : t + 1 < 2 ^ U := by omega
+      simp [okOf, Except.map, MachInt.add, hlt, pure]
+
+/-- on an empty slice `words[0]` is out of bounds -/
+theorem gen_trailing_ones_neg_large_empty (W U : Nat) : trailing_ones_neg_large W U [] = none := rfl
+
+-- non-vacuity (64-bit words): even low word; odd low word with the scan ending inside word 0; scan running into word 2
+example : trailing_ones_neg_large 64 64 [6, 0, 1] = some 0 ∧ trailing_ones_neg_large 64 64 [5, 0, 1] = some 2 ∧
+    trailing_ones_neg_large 64 64 [1, 0, 8] = some 131 := by
+  refine ⟨by decide, by decide, by decide⟩
+
 end Dashu.Props.GenScans
